@@ -370,6 +370,12 @@ func (x *Exec) runFunc(fr *Frame, entry *State) (*State, Val) {
 				}
 				exits = append(exits, exitRec{st.clone(), Val{T: resT, L: ls}})
 				terminated = true
+				if fr == x.top && !fr.spec && fr.unit != nil && x.entry != nil && x.lockBalanceChecked(fr) {
+					// every mutex is in the state it was in on entry (the contract says otherwise by
+					// mentioning held(...) in a postcondition)
+					hs := tb.Array(tb.BV(64), tb.Bool)
+					x.addObl(fr, st, "lock", t, "balance", tb.Eq(x.heapGet(st, "g:held", hs), x.heapGet(x.entry, "g:held", hs)))
+				}
 				if fr == x.top && !fr.spec && fr.unit != nil && x.cfg.CoverReturns {
 					pos := x.ld.Fset.Position(t.Pos())
 					o := &Obligation{Name: fmt.Sprintf("%s#cover:return@%d", x.unitName(), len(exits)-1), Kind: "cover", Func: x.unitName(), Hyp: st.reach, Goal: x.tb.False,
@@ -463,6 +469,18 @@ func (x *Exec) runFunc(fr *Frame, entry *State) (*State, Val) {
 		}
 	}
 	return x.mergeStates(sts), res
+}
+
+func (x *Exec) lockBalanceChecked(fr *Frame) bool {
+	if x.noLockHavoc(fr.fn) && !x.lockStateOn() {
+		return false
+	}
+	for _, c := range fr.unit.C.Ensures {
+		if strings.Contains(c.Expr, "held(") {
+			return false
+		}
+	}
+	return true
 }
 
 func (x *Exec) panicText(fr *Frame, p *ssa.Panic) string {
@@ -603,6 +621,9 @@ func (x *Exec) havocLoop(fr *Frame, st *State, li *loopInfo) {
 		}
 	}
 	x.applyEff(st, eff)
+	if eff.Locks && x.lockStateOn() {
+		x.havocLocks(st) // the loop body itself locks and unlocks: the invariant must say what is held
+	}
 	for _, rt := range rows {
 		for _, l := range x.leaves(rt.et) {
 			cls := elemClass(rt.et) + l.Path
